@@ -135,6 +135,9 @@ class ParseState(metaclass=ParseStateMeta):
 
         if len(self.values) != 1:
             raise ValueError('Could not parse rule')
+        if self.tokens[0] in ('(', ')', 'and', 'or', 'not', 'string'):
+            # A lone operator, parenthesis or quoted string is not a rule
+            raise ValueError('Could not parse rule')
         return self.values[0]
 
     @reducer('(', 'check', ')')
@@ -348,4 +351,11 @@ def parse_rule(rule):
     # If the rule is a string, it's in the policy language
     if isinstance(rule, str):
         return _parse_text_rule(rule)
-    return _parse_list_rule(rule)
+    if isinstance(rule, (list, tuple)):
+        return _parse_list_rule(rule)
+
+    # Anything else (null, boolean, number, mapping) is not a rule
+    LOG.error('Failed to understand rule %s', rule)
+
+    # Fail closed
+    return _checks.FalseCheck()
